@@ -65,7 +65,7 @@ theorem unescapePath_self_iff (p : Bytes) : unescapePath p = some p ↔ percent 
       rw [unescapePath_cons_ne c cs hc, ih (fun hm => h (List.mem_cons_of_mem _ hm))]
       rfl
 
-/-- after fix D38 the gRPC-Web adapter and `RouteHTTP` use the same expression -/
+/-- after fix D39 the gRPC-Web adapter and `RouteHTTP` use the same expression -/
 theorem webName_eq_httpName (u : URL) : webName u = httpName u := rfl
 
 /-- what `setPath` stores as `URL.Path` is the decoded request path -/
